@@ -15,7 +15,7 @@
    (theorems.json). *)
 From Coq Require Import SpecFloat.
 Require Import Base Value Float PrintOptions ParseOptions Utf8 Reader Scan Num NumberOps Parser.
-Require Import RelFramework PositionProofs SpanProofs.
+Require Import RelFramework PositionProofs SpanProofs CrossProofs SourcesAgree.
 
 Theorem C11_spans_in_bounds_partial : forall ro alpha fast std_parse k inp d,
   datum_from_trait ro alpha fast std_parse k inp = POk d ->
@@ -113,3 +113,17 @@ Example C11_nonvacuous :
   | PErr _ => False
   end.
 Proof. vm_compute. repeat split; reflexivity. Qed.
+
+(* The spans are the same whether the input came from a byte slice or from an
+   io::Read stream: the datum API returns the same datum - value and span
+   information, at every depth - from both, for every option set and input (or
+   errors with the same code). *)
+Theorem C11_same_across_slice_and_stream : forall ro alpha fast std_parse (s : bytes),
+  match datum_from_trait ro alpha fast std_parse SrcSlice (bytes_events s), datum_from_trait ro alpha fast std_parse SrcIo (bytes_events s) with
+  | POk d1, POk d2 => d1 = d2
+  | PErr (XErr (ESyntax c1 _ _)), PErr (XErr (ESyntax c2 _ _)) => c1 = c2
+  | PErr (XErr (EIo a)), PErr (XErr (EIo b)) => a = b
+  | _, _ => False
+  end.
+Proof. exact slice_stream_agree_datum. Qed.
+Print Assumptions C11_same_across_slice_and_stream.
